@@ -17,11 +17,15 @@ func init() {
 	register("C17", "other", []string{
 		"decides: on the COMP_LINE edge of Parse every path to a return passes exitFn and prints the joined candidate list to the completion writer; no CommandFn is reachable from the parser or from that edge; every candidate list returned is sorted with no later append; every candidate that comes from the option / command tables or the static suggestions is appended under a HasPrefix(candidate, typed) test against the cursor's own tables, and every key passing the test is appended",
 		"not decided: equality of the candidate set with the specification for value completion, and that every offered candidate is accepted by the parser",
-	}, rC17Exit, rC17NoCommand, rC17Sorted, rC17Candidates, rC17Sections, rC17HelpTopics, func(w *World, r *Report) { subRule(w, r, rC10CopyOptions, "R17.7", "the option table of the level reached holds the inherited options (same obligations as C10 R10.5)", 3) })
+	}, rC17Exit, rC17NoCommand, rC17Sorted, rC17Candidates, rC17Sections, rC17HelpTopics, func(w *World, r *Report) {
+		subRule(w, r, rC10CopyOptions, "R17.7", "the option table of the level reached holds the inherited options (same obligations as C10 R10.5)", 3)
+	})
 	register("C18", "other", []string{
 		"decides: every switch over the option kind in help rendering is total (or has a default); the option list is built from the node's table with the alias filter only; the required/normal partition is total and both parts are rendered; all help routes use the one renderer on the node; the command list hides only the help command; defaults and environment variables are shown; the per-option synopsis is recomputed after every change of the fields it derives from and lists every alias",
 		"layout, wrapping at 80 columns and multi-line descriptions are not decided",
-	}, rC18Switches, rC18OptionList, rC18Partition, rC18Routes, rC18Commands, rC18Fields, rC18Freshness, rC18SynopsisArms, rC18Args, definersRule("R18.10"), func(w *World, r *Report) { subRule(w, r, rC10CopyOptions, "R18.11", "inherited options reach every level's table, whatever the declaration order (same obligations as C10 R10.5)", 3) })
+	}, rC18Switches, rC18OptionList, rC18Partition, rC18Routes, rC18Commands, rC18Fields, rC18Freshness, rC18SynopsisArms, rC18Args, definersRule("R18.10"), func(w *World, r *Report) {
+		subRule(w, r, rC10CopyOptions, "R18.11", "inherited options reach every level's table, whatever the declaration order (same obligations as C10 R10.5)", 3)
+	})
 }
 
 // ------------------------------------------------------------------ C17
